@@ -486,4 +486,28 @@ inductive LSel
   | many (xs : List (List Int))
   deriving Repr, DecidableEq, Inhabited
 
+
+/-! ### Attribute walks over an object graph (`getattr_nested`) -/
+
+/-- an object as `getattr` sees it: `None`, a value without further attributes (shown as its text), or a record of named attributes -/
+inductive Obj
+  | none
+  | text (t : List Char)
+  | record (fields : List (List Char × Obj))
+  deriving Repr, Inhabited
+
+def Obj.isNone : Obj → Bool | .none => true | _ => false
+/-- `getattr(obj, name)`: `none` = `AttributeError` -/
+def Obj.getattr? : Obj → List Char → Option Obj
+  | .record fs, a => (fs.find? (fun f => f.1 == a)).map (·.2)
+  | _, _ => Option.none
+
+/-- `s.split(sep)` for a one-character separator: the pieces between separators (always at least one piece) -/
+def splitOnChar (sep : Char) : List Char → List (List Char)
+  | [] => [[]]
+  | c :: cs =>
+    match splitOnChar sep cs with
+    | [] => [[]]      -- unreachable
+    | p :: ps => if c == sep then [] :: p :: ps else (c :: p) :: ps
+
 end GambitV.Py
